@@ -12,7 +12,8 @@
 (***************************************************************************)
 EXTENDS Naturals, FiniteSets, Sequences
 
-CONSTANTS N          \* number of (non-empty) columns
+CONSTANTS N,         \* number of (non-empty) columns
+          EdgePoolCodes \* codes 10*i+j of the pairs that may intersect; {} means every pair (cfg files cannot hold tuples)
 VARIABLES parent, pc,
           Edges      \* the pairs i<j whose columns intersect (fixed along a behaviour)
 gvars == <<parent, pc, Edges>>
@@ -24,7 +25,8 @@ RECURSIVE Root(_,_)
 Root(par, i) == IF par[i] = i THEN i ELSE Root(par, par[i])
 SameClass(par, i, j) == Root(par, i) = Root(par, j)
 
-Init == parent = [i \in Cols |-> i] /\ pc = [t \in Tasks |-> "check"] /\ Edges \in SUBSET Tasks
+EdgePool == IF EdgePoolCodes = {} THEN Tasks ELSE {t \in Tasks : (10 * t[1] + t[2]) \in EdgePoolCodes}
+Init == parent = [i \in Cols |-> i] /\ pc = [t \in Tasks |-> "check"] /\ Edges \in SUBSET EdgePool
 
 \* critical section 1: is_same + (lock released) intersection test
 Check(t) == /\ pc[t] = "check"
